@@ -162,6 +162,7 @@ def run(tier, seed):
     drv, err = build_driver()
     if err:
         res.broken.append(("model driver build", err))
+        drv = NO_MODEL
     names = (st.get("modules", {}).get("Ext", {}) or {}).get("names", [])
     n = 2500 if tier == "quick" else 150000
     for fl in (["O1"] if tier == "quick" else ["O1", "O3", "asan"]):
